@@ -115,8 +115,28 @@ def stamp(items, rng, style="plain", grid=1):
     return items
 
 
-def keylog_text(flows, rng=None, shuffle=True, eol="\n"):
+def decoy_lines(flows, rng):
+    """key-log lines of connections that are NOT in the capture: unrelated ones, and ones that share their secret value with a captured
+    connection under a different client random (the log of a session that was resumed elsewhere)"""
+    out = []
+    real = [l for f in flows for l in f.keylog]
+    for _ in range(rng.choice([1, 2, 4])):
+        r = rng.random()
+        if r < 0.5 and real:
+            a, b, c = rng.choice(real).split(" ")
+            out.append(f"{a} {rng.randbytes(32).hex()} {c}")            # same secret, other client random
+        elif r < 0.8:
+            out.append(f"CLIENT_RANDOM {rng.randbytes(32).hex()} {rng.randbytes(48).hex()}")
+        else:
+            cr = rng.randbytes(32).hex()
+            out += [f"{lab} {cr} {rng.randbytes(32).hex()}" for lab in ("CLIENT_HANDSHAKE_TRAFFIC_SECRET", "SERVER_TRAFFIC_SECRET_0", "CLIENT_TRAFFIC_SECRET_0")]
+    return out
+
+
+def keylog_text(flows, rng=None, shuffle=True, eol="\n", decoys=False):
     lines = [l for f in flows for l in f.keylog]
+    if decoys and rng is not None:
+        lines += decoy_lines(flows, rng)
     if rng is not None and shuffle:
         rng.shuffle(lines)
     return (eol.join(lines) + eol).encode() if lines else b""
